@@ -8,7 +8,7 @@ import json
 import os
 import random
 
-from vlib import Broken, Verdict, log, read_ndjson, write_ndjson, require_coverage, NCPU
+from vlib import unreproduced as vlib_unreproduced, Broken, Verdict, log, read_ndjson, write_ndjson, require_coverage, NCPU
 
 DELTA_ACTIONS = ["SendWhole", "MatchAny", "Slide", "FlushEarly", "Finish", "RcvLit", "RcvRef", "RcvEnd"]
 
@@ -211,9 +211,7 @@ def run_and_validate(w, scen, label, v, counts, confirm=True, session=1, first_i
         w.run_harness("delta", sf2, of2)
         obs2 = flatten(read_ndjson(of2))
         rej2, _, _, where2 = validate(w, obs2, label + "-confirm")
-        unconfirmed = set(rej) - set(rej2)
-        if unconfirmed:
-            raise Broken("rejections not reproduced on re-run (flaky harness?): ids %s" % sorted(unconfirmed)[:10])
+        unconfirmed = vlib_unreproduced(v, rej, rej2, "rejected token streams", total=len(obs))
         sess_of = {}
         for ln in again:
             for sub in (ln.get("session") or [ln]):
